@@ -23,7 +23,7 @@ LEVEL = "exploration"
 TECHNIQUE = ("deterministic simulation: the quantile behind every target draw is a scheduled event; returned targets and resulting "
              "block sizes are compared with closed-form quantiles of the documented law (probability-space tolerance)")
 RULE = ("perdraw runs: one random input x one seeded schedule, every draw compared; sweep runs: one linear 1-3 block input x a "
-        "quantile grid (40 points quick, 400 thorough, plus tails) per block through the whole generator; distinct = hash of (input, "
+        "quantile grid (40 points quick, 200 thorough, plus tails) per block through the whole generator; distinct = hash of (input, "
         "schedule / grid); non-trivial = at least 2 draws (perdraw) or at least 20 grid points (sweep) compared")
 ASSUMPTIONS = gc.ASSUMPTIONS_COMMON + [
     "reference laws are closed forms of the documented formulas with the documented parameter order (refdist.py); "
@@ -38,7 +38,7 @@ SWEEP_UNITS = ["{0}CC{1}", "{0}CC({1})c1ccccc1", "{0}CCO{1}", "{0}C(N)C{1}", "{0
 
 
 def plan(tier):
-    return 900 if tier == "quick" else 16000
+    return 900 if tier == "quick" else 6000
 
 
 def spec_from_seed(run_seed, tier):
@@ -66,7 +66,7 @@ def spec_from_seed(run_seed, tier):
         fams.append(fam)
         text += "{[>]" + u.format("[<]", "[>]") + "[<]}" + dist
     text += rnd.choice(["C", "[H]", "CO", "F"])
-    npts = 40 if tier == "quick" else 400
+    npts = 40 if tier == "quick" else 200
     return {"kind": "sweep", "prop": "C09", "text": text, "tags": ["arch:sweep_linear"] + ["family:" + f for f in fams],
             "n_blocks": n_blocks, "block": rnd.randrange(n_blocks), "npts": npts,
             "others_u": [round(rnd.uniform(0.05, 0.95), 6) for _ in range(n_blocks)],
